@@ -188,6 +188,7 @@ structure InvG (s : State) : Prop where
   noDeletedAtoms : s.ctx.deletedAtoms = []
   noSaved : s.ctx.savedFixed = none
   fixedOK : FixedOK s.atoms
+  noSizes : s.ctx.addedSizes = []
 
 /-- **rejected or failed single exchange move**: atoms, atom order, every column and the constraints are restored -/
 theorem exch_not_accepted_restores (sim : Sim) (he : sim.ens = .grand) (r : Nat) (s : State) (hinv : InvG s)
